@@ -349,7 +349,6 @@ func ruleWritePath(c *Ctx, r *Report) {
 	}
 }
 
-
 func valueOfInstr(in ssa.Instruction) ssa.Value {
 	if v, ok := in.(ssa.Value); ok {
 		return v
